@@ -23,7 +23,11 @@ Bases == {
   [kind |-> Kind, version |-> "ok", stmts |-> <<St("n1", "strict", NoOv, "always", <<"ca:s", "tsa:s">>, <<"idA", "idB">>, Sc(<<"r">>), Gl(TRUE)),
                                                St("n2", "skip", NoOv, "", <<>>, <<>>, Sc(<<"r/x">>), Gl(FALSE))>>],
   [kind |-> Kind, version |-> "ok", stmts |-> <<St("n1", "permissive", Ov1("revocation", "skip"), "afterCertExpiry", <<"sa:s">>, <<"idA+">>, Sc(<<"r", "rx">>), Gl(FALSE)),
-                                               St("n2", "audit", Ov1("expiry", "enforce"), "", <<"ca:dotted", "ca:s">>, <<"other:foo">>, Sc(<<"*">>), Gl(FALSE))>>] }
+                                               St("n2", "audit", Ov1("expiry", "enforce"), "", <<"ca:dotted", "ca:s">>, <<"other:foo">>, Sc(<<"*">>), Gl(FALSE))>>],
+  \* three statements: rules about pairs of statements must hold for non-adjacent ones too
+  [kind |-> Kind, version |-> "ok", stmts |-> <<St("n1", "strict", NoOv, "", <<"ca:s">>, <<"idA">>, Sc(<<"r">>), Gl(FALSE)),
+                                               St("n2", "audit", NoOv, "", <<"sa:s">>, <<"*">>, Sc(<<"rx">>), Gl(FALSE)),
+                                               St("n3", "permissive", NoOv, "", <<"ca:s">>, <<"idB">>, Sc(<<"r_us">>), Gl(FALSE))>>] }
 
 SetSt(doc, i, st) == [doc EXCEPT !.stmts[i] = st]
 RemoveAt(sq, j) == [k \in 1..(Len(sq) - 1) |-> IF k < j THEN sq[k] ELSE sq[k + 1]]
